@@ -231,7 +231,7 @@ fn main() {
     });
 
     // ---- workload 2: generated scenarios
-    let n = ctx.tier.pick(20_000, 400_000);
+    let n = ctx.tier.pick(60_000, 400_000);
     run_cases(&ctx, &replay, &mut rep, "generated", n, |rng, rep, i| {
         let sc = gen::gen_scenario(rng, i);
         let bad = |s: String| -> ! { eprintln!("HARNESS-ERROR C15 (case {i}): {s}"); std::process::exit(3) };
